@@ -1186,8 +1186,11 @@ def _recreate_style(content, dfxp):
     dfxp_style = {}
 
     if 'class' in content:
-        if dfxp.find("style", {"xml:id": content['class']}):
-            dfxp_style['style'] = content['class']
+        # style="a b" refers to several styles: keep every reference that resolves
+        ids = [id_ for id_ in str(content['class']).split()
+               if dfxp.find("style", {"xml:id": id_})]
+        if ids:
+            dfxp_style['style'] = ' '.join(ids)
     if 'text-align' in content:
         dfxp_style['tts:textAlign'] = content['text-align']
     if 'italics' in content:
